@@ -223,7 +223,7 @@ pub fn run(ctx: &mut Ctx) -> Value {
             continue;
         }
         for (k, (line, node)) in hboxes.iter().zip(chain.iter()).enumerate() {
-            let ml = match conv::to_model(&line.list, &|c| metrics.get(&(c as u32 as u8)).copied()) {
+            let ml = match conv::to_model(&line.list, &|c, _f| metrics.get(&(c as u32 as u8)).copied()) {
                 Ok(m) => m,
                 Err(e) => {
                     errors.push(format!("{test} line {}: {e}", k + 1));
